@@ -12,13 +12,16 @@ Reactions == {"grant", "refuse"}
 
 VARIABLE case
 
-GenInit == Init /\ case = [cmd |-> "none", class |-> "none", react |-> "none"]
+\* stale: the capabilities of cfg were advertised in the greeting, the client has logged in since (tagged OK without
+\* CAPABILITY code) and the server has not answered the CAPABILITY command yet
+GenInit == Init /\ case = [cmd |-> "none", class |-> "none", react |-> "none", stale |-> FALSE]
 
 GenNext ==
   /\ phase = "idle" /\ case.cmd = "none"
-  /\ \E cmd \in Cmds, react \in Reactions :
+  /\ \E cmd \in Cmds, react \in Reactions, stale \in BOOLEAN :
        \E class \in (IF cmd = "APPEND" THEN AppendSizes ELSE Classes) :
-         /\ case' = [cmd |-> cmd, class |-> class, react |-> react]
+         /\ stale => (cmd # "LOGIN" /\ ~cfg.utf8)        \* nothing can have been enabled before the login
+         /\ case' = [cmd |-> cmd, class |-> class, react |-> react, stale |-> stale]
          /\ PrintT(<<"T", ToJson([cfg |-> cfg, case |-> case'])>>)
   /\ phase' = "done" /\ UNCHANGED <<cfg, wrote, status, alive>>
 =============================================================================
